@@ -629,6 +629,15 @@ fn main() {
                     other => acc.violation("from_tzif:rejects-wellformed", format!("zone with footer {} written as TZif v{} {:?}", z.rule.as_ref().unwrap().to_tz_string(), version, v1), "Ok".into(), format!("{:?}", other.map(|r| r.map(|_| ())))),
                 }
             }
+            // tables with hundreds and with 2^16 transitions
+            for &n in &MANY_COUNTS {
+                let (z, version, v1, ind) = many_transition_zone(n);
+                let bytes = write_tzif(&z, version, v1, ind);
+                if read_tzif(&bytes).as_ref() != Ok(&z) {
+                    machinery(&format!("RefTzif writer/reader disagree on the table of {} transitions", n));
+                }
+                one_bytes(acc, &|| format!("a table of {} daily transitions written as TZif v{}", n, version), &bytes, ACC_EQ);
+            }
             acc.traces += 1;
             return;
         }
